@@ -31,7 +31,7 @@ def clock_at(trace, q):
     for l in trace[:q]:
         op, out, _ = C.split_line(l)
         t = op.split()
-        if t and t[0] == "D" and not out.startswith("ERR"):
+        if t and t[0] in ("D", "TD") and not out.startswith("ERR"):
             now += int(t[1])
     return now
 
